@@ -64,6 +64,25 @@ pub fn text_or_bed3(t: Option<Text>) -> (r: Text)
 pub open spec fn stored_text(t: Option<Text>) -> Seq<u8> {
     match t { Some(x) => x.bytes(), None => bed3() }
 }
+/// the predicate `!a.trim().is_empty()` on a text: uninterpreted, except for the one fact used: it is FALSE for the empty
+/// text (`"".trim()` is `""`)
+pub uninterp spec fn not_blank(t: Seq<u8>) -> bool;
+/// `autosql.filter(|a| !a.trim().is_empty())`: Option::filter's real contract (None stays None; Some(x) is kept iff the
+/// predicate holds for x, else None) over the named predicate
+#[verifier::external_body]
+pub fn filter_not_blank(t: Option<Text>) -> (r: Option<Text>)
+    ensures
+        t is None ==> r is None,
+        t matches Some(x) ==> r == (if not_blank(x.bytes()) { Some(x) } else { None::<Text> }),
+        t matches Some(x) ==> (x.bytes().len() == 0 ==> !not_blank(x.bytes())),
+{ unimplemented!() }
+/// `autosql.filter(|a| !a.is_empty())`: the same with the predicate "has at least one byte"
+#[verifier::external_body]
+pub fn filter_nonempty(t: Option<Text>) -> (r: Option<Text>)
+    ensures
+        t is None ==> r is None,
+        t matches Some(x) ==> r == (if x.bytes().len() > 0 { Some(x) } else { None::<Text> }),
+{ unimplemented!() }
 /// what `parse_autosql` finds in the text: the field count of every declaration, in order (None: parse error).
 /// Abstract here; the parser itself is units asql_loops / asql_tok.
 pub uninterp spec fn decl_counts(t: Seq<u8>) -> Option<Seq<int>>;
@@ -252,7 +271,9 @@ impl BigBedWrite {
 //@rule R3 min=3
 //@rule R8
 //@presub /\n([ \t]*)let field_count = 'field_count: \{.*?\n\1\};/ => \n\1let field_count = schema_field_count(&autosql); min=1 count=1
-//@presub /autosql\.unwrap_or_else\(\|\| crate::bed::autosql::BED3\.to_string\(\)\)/ => text_or_bed3(autosql) min=1 count=1
+//@presub /autosql\s*\.filter\(\|(\w+)\|\s*!\1\.trim\(\)\.is_empty\(\)\)(?=\s*\.unwrap_or_else\()/ => filter_not_blank(autosql) min=0 count=1
+//@presub /autosql\s*\.filter\(\|(\w+)\|\s*!\1\.is_empty\(\)\)(?=\s*\.unwrap_or_else\()/ => filter_nonempty(autosql) min=0 count=1
+//@presub /(autosql|filter_\w+\(autosql\))\s*\.unwrap_or_else\(\|\|\s*crate::bed::autosql::BED3\.to_string\(\)\)/ => text_or_bed3(\1) min=1 count=1
 //@presub /CString::new\(autosql\.into_bytes\(\)\)\s*\.map_err\(\|_\|\s*\{?\s*ProcessDataError::InvalidInput\("Invalid autosql: null byte in string"\.to_owned\(\)\)\s*\}?\)\?;/ => match CStr::new(autosql.into_bytes()) { Ok(c) => c, Err(_) => return Err(ProcessDataError::InvalidInput(Msg {})) }; min=1 count=1
 //@sub /file: &mut BufWriter<W>,/ => file: &mut FSink, min=1
 //@sub /autosql: Option<String>,/ => autosql: Option<Text>, min=1
@@ -288,7 +309,10 @@ impl BigBedWrite {
         final(file).wf(),
 //@open
     let ghost d0 = file.data();
-    let ghost t = stored_text(autosql);
+//@at /= text_or_bed3\(/ after
+        // `t` = the text the code goes on with (the local that shadows the parameter): the step assertions below say that
+        // THIS text is laid out; the postconditions say that it must be the supplied one (`stored_text(autosql)`)
+        let ghost t = autosql.bytes();
 //@at /let total_summary_offset = / before
         proof {
             [[L: bb/text_then_one_nul_at_304]]
